@@ -379,8 +379,11 @@ func (g *gen) ifStmt(d int) []stmtText {
 		return one(s, false)
 	case 7: // if(a){}else b  (only with a side-effect-free or call-only condition, K03)
 		return one("if("+c+"){}else "+simple(), true)
-	case 8: // if(a)b;else{}
-		return one("if("+c+")"+simple()+";else{}", false)
+	case 8: // if(a)b;else{}   (N11: only with -known)
+		if g.known {
+			return one("if("+c+")"+simple()+";else{}", false)
+		}
+		return one("if("+c+")"+simple()+";else "+simple(), true)
 	default:
 		s := "if(" + c + ")" + g.body(d-1)
 		if r.Bool() {
@@ -679,7 +682,7 @@ func (g *gen) funcParts(d int, fc *fctx, nStmts int, exprBody bool) (params stri
 		switch r.Intn(8) {
 		case 0: // default value (pure unless -known: unused trailing parameters are dropped, N02)
 			p := g.fresh("p")
-			def := g.leaf(g.primKind()).s
+			def := r.Pick("1", "\"d\"", "g0", "e", "t", "null", "void 0", "[]", "{}", "-1", "!0")
 			if len(ps) > 0 && r.Bool() {
 				def = ps[0]
 			}
@@ -1058,7 +1061,7 @@ func (g *gen) idiom(d int, top bool) []stmtText {
 	e := func() string { return g.w(g.expr(kAny, d-1), pAssign) }
 	c := func() string { return g.condTest(d - 1).s }
 	cp := func() string { return g.w(g.condTest(d-1), pBitOr) }
-	switch r.Intn(26) {
+	switch r.Intn(27) {
 	case 0: // return merging inside a function
 		f := g.fresh("f")
 		p := g.fresh("p")
@@ -1212,6 +1215,18 @@ func (g *gen) idiom(d int, top bool) []stmtText {
 	case 24: // optional catch binding candidate and rethrow
 		cn := g.fresh("c")
 		return one("try{try{throw "+e()+"}catch("+cn+"){"+h()+"(0)}finally{"+h()+"(1)}}catch("+g.fresh("c")+"){}", false)
+	case 26: // destructuring assignment statements (never as call arguments: V8 rejects f(a+=1,[x]=y))
+		if g.level < 2015 {
+			break
+		}
+		a, b := g.mutVarOf(kAny), g.mutVarOf(kAny)
+		if a == nil || b == nil || a == b {
+			break
+		}
+		if r.Bool() {
+			return one(";["+a.name+","+b.name+"]=["+b.name+","+a.name+"]", true)
+		}
+		return one(";({a:"+a.name+",b:"+b.name+"=1}="+r.Pick("g4", "o", "{a:1}")+")", true)
 	case 25: // many locals
 		if r.Chance(1, 2) {
 			return g.bigFunction(top)
